@@ -265,6 +265,12 @@ var nestTpls = []nestTpl{
 	{"js", "computed", "x=", "{[", "a", "]:a}", "", ""},
 	{"js", "default-param", "x=", "(a=", "a", ")=>a", "", ""},
 	{"js", "yield", "function*g(){x=", "yield ", "a", "", "}", ""},
+	{"js", "arrow-block", "", "x=()=>{", "", "}", "", ""},
+	{"js", "iife", "", "(function(){", "", "})()", "", ""},
+	{"js", "func-expr-stmt", "", "x=function(){", "", "}", "", ""},
+	{"js", "obj-method-stmt", "", "x={m(){", "", "}}", "", ""},
+	{"js", "class-expr-stmt", "", "x=class{m(){", "", "}}", "", ""},
+	{"js", "call-arrow-block", "", "f(()=>{", "", "})", "", ""},
 	{"js", "stmts", "", "a;", "", "", "", ""},
 	{"js", "var-list", "var a", ",a", "", "", "", ""},
 	{"js", "import-list", "import{a", ",a", "", "", "}from'm'", ""},
@@ -415,9 +421,9 @@ func c01NestSetup(c *engine.Ctx) {
 func c01NestWork(c *engine.Ctx) {
 	sp := c.SpaceByName("nest")
 	type ds struct{ depth, stack int }
-	depths := []ds{{999, 64}, {1001, 64}, {100000, 32}, {1000000, 64}}
+	depths := []ds{{40, 64}, {999, 64}, {1001, 64}, {100000, 32}, {1000000, 64}}
 	if c.Thorough() {
-		depths = []ds{{10, 64}, {999, 64}, {1000, 64}, {1001, 64}, {2000, 64}, {10000, 64}, {100000, 32}, {1000000, 64}, {3000000, 128}}
+		depths = []ds{{10, 64}, {40, 64}, {300, 64}, {999, 64}, {1000, 64}, {1001, 64}, {2000, 64}, {10000, 64}, {100000, 32}, {1000000, 64}, {3000000, 128}}
 	}
 	k := 0
 	for _, d := range depths {
